@@ -34,7 +34,7 @@ fn pct_decode(s: &str) -> String {
 pub fn request(_seed: u64) -> usize {
     let rt = tokio::runtime::Builder::new_multi_thread().worker_threads(2).enable_all().build().expect("rt");
     let mut found = 0;
-    let names = ["Steve", "a&serverId=b", "x y", "q?r#s", "100%", "a+b", "ä/ö", "n=1", "tab\there"];
+    let names = ["Steve", "a&serverId=b", "x y", "q?r#s", "100%", "a+b", "ä/ö", "n=1", "tab\there", "", " ", "line\nfeed", "cr\rhere", "semi;colon", "\u{1F600}", "a&username=b", "%41", "[x]", "../../x", "a\\b", "\"quoted\"", "long_name_with_sixteen_plus_characters_0123456789"];
     rt.block_on(async {
         let listener = TcpListener::bind("127.0.0.1:0").await.expect("bind");
         let port = listener.local_addr().unwrap().port();
